@@ -69,8 +69,11 @@ MConv(arg) ==
   /\ UNCHANGED <<pc, shape, entry, info, hook, parts, out, nFin>>
 
 \* the hook is called on `before` and leaves `after` (hookOk: whether it reported success)
-CanFinish(before) == /\ pc = "open" /\ hook = "none" /\ before = parts
-                     /\ (entry = "parse" => (conv = "ok" /\ info.clean))
+\* (what a parse hands to the hook is fixed up to empty-valued qualifiers: C14 says they are removed after the hook,
+\* not whether the hook gets to see them)
+CanFinish(before) == /\ pc = "open" /\ hook = "none"
+                     /\ IF entry = "parse" THEN conv = "ok" /\ info.clean /\ StepRetain(before) = StepRetain(parts)
+                        ELSE before = parts
 MFinish(before, after, hookOk) ==
   /\ CanFinish(before)
   /\ nFin' = nFin + 1
